@@ -1,6 +1,6 @@
 (* C03 - Requests in flight never exceed max-workers and free capacity is used. *)
 From Coq Require Import ZArith List Bool.
-From V Require Import Model.AttackLTS Proofs.AttackProofs.
+From V Require Import Model.AttackLTS Proofs.AttackProofs Model.Accept Proofs.AcceptProofs.
 Import ListNotations.
 Open Scope Z_scope.
 
@@ -32,3 +32,12 @@ Example c03_example :
   let c := {| maxw := 1; initw := 3; du := 0; fails := [] |} in
   nworkers (init c) = 1 /\ wf_cfg c.
 Proof. split; [reflexivity | unfold wf_cfg; cbn; split; discriminate]. Qed.
+
+(* The tie to the code: the harness drives real attacks and the acceptance procedure (Model/Accept.v)
+   keeps the model states compatible with what was observed.  Every state it keeps is reachable in
+   the LTS - so every statement above about reachable states holds of the model states that
+   explain a real run. *)
+Theorem accepted_states_reachable : forall c steps out,
+  drive c steps [init c] 0 = inr out -> forall s, In s out -> reachable c s.
+Proof. exact accepted_reachable_lemma. Qed.
+Print Assumptions accepted_states_reachable.
